@@ -23,6 +23,7 @@ func ZZExprs(level int) []string {
 		"(a)", "(?P<n>a)b", "(a|b)*c", "(ab)*", "(a*)*", "(a|ab)(c|bcd)", "a*b|ab", "x(a|b)*", "(a+)+b", "a?b?c",
 		"abc|bc", "a(b|c)d", "(?:a*b|ab)", "(a|b|c)d", "\\Aa\\z", "a\\n", "(?m)^a$", "(?m)a$b", "a|", "|a",
 		"(?:ab)+c", "a{0,2}b", "[a-b]+c", "(?i)[a-b]c", "\\x00a", "a\\xffb", "(?:a|b)?c", "((a)|(b))c", "a**", "(?:)", "(?:a)",
+		"ba*a", "x(?:ab)+ab", "0x0*0", "xa(?:ab)*b", "aa*", "(?:ab)*b", "a(?:ba)*ba", "(?:a|ba)*a",
 		"(?i)k", "(?i)s", "[^\\n]a", "(?s:.)a", "..", "a.b", "a.?b", ".+b", "b.+", "(?:.*a)b", "a(?:b*)c", "(a|b)(a|b)",
 	}
 	if level == 0 {
